@@ -701,3 +701,33 @@ func VerifC07_rendertime() {
 	}
 	vfObserveStr("out", out1)
 }
+
+// VerifC07_reheader: a wrapper that has rendered, whose headers are then replaced (same count, other
+// texts - also duplicate or empty ones), renders like a fresh wrapper of an equal table: the keys are
+// the current header texts, and unusable headers are refused with no text.
+func VerifC07_reheader() {
+	sets := [][]interface{}{{"k", "v"}, {"d", "d"}, {"", "v"}, {"name", "id"}, {vfString("h", 1, vfASCII), "id"}}
+	hs := sets[vfChoice("headers", len(sets))]
+	t := New()
+	t.AddHeaders("id", "name")
+	t.AddRowItems(1, "x")
+	_, err := t.Render()
+	vfAssert(err == nil, "render-ok")
+	t.AddHeaders(hs...)
+	out2, err2 := t.Render()
+	fresh := New()
+	fresh.AddHeaders(hs...)
+	fresh.AddRowItems(1, "x")
+	outF, errF := fresh.Render()
+	vfAssert((err2 == nil) == (errF == nil), "kept-wrapper-refuses-what-a-fresh-one-refuses")
+	vfAssert(out2 == outF, "kept-wrapper-mirrors-the-current-table")
+	if err2 != nil {
+		vfAssert(out2 == "", "no-text-on-error")
+		return
+	}
+	objs, ok := vfParseArray(out2)
+	vfAssert(ok, "valid-json")
+	if ok && len(objs) == 1 && len(objs[0].keys) == 2 {
+		vfAssert(objs[0].keys[0] == hs[0].(string), "keys-are-the-current-headers")
+	}
+}
